@@ -113,10 +113,25 @@ var gen4Targets = []string{
 	"pbcmpl.verStr",
 }
 
-var targetList = append(append(append(append([]string{}, legacyTargets...), newTargets...), gen3Targets...), gen4Targets...)
+// The TARGET LIST of ssa2lean5 (generated into lean/Generated/Ssa5, namespace
+// Low.Gen.Ssa5): package pbcmpl, external calls as oracle answers (extern.go).
+var gen5Targets = []string{
+	"pbcmpl.newHeader",
+	"pbcmpl.headerInfo.GetVersion",
+	"pbcmpl.headerInfo.GetHeaderSize",
+	"pbcmpl.headerInfo.GetBodySize",
+	"pbcmpl.ReadHeader",
+	"pbcmpl.Unmarshal",
+	"pbcmpl.marshal",
+	"pbcmpl.Marshal",
+	"pbcmpl.HeaderSize",
+	"pbcmpl.Size",
+}
+
+var targetList = append(append(append(append(append([]string{}, legacyTargets...), newTargets...), gen3Targets...), gen4Targets...), gen5Targets...)
 
 func fatalf(format string, args ...interface{}) {
-	fmt.Fprintf(os.Stderr, "ssa2lean4: FATAL: "+format+"\n", args...)
+	fmt.Fprintf(os.Stderr, "ssa2lean5: FATAL: "+format+"\n", args...)
 	os.Exit(1)
 }
 
@@ -127,16 +142,16 @@ func main() {
 	tags := flag.String("tags", "verif", "build tags used to load the repo")
 	quiet := flag.Bool("q", false, "do not print the per-function report")
 	dump := flag.Bool("dump", false, "print go/ssa's listing of the selected targets and exit")
-	extra := flag.String("extra", "", "comma-separated functions to translate IN ADDITION to the target list, as generation-4 targets (experiments and the differential test of the translator; they have no tie)")
+	extra := flag.String("extra", "", "comma-separated functions to translate IN ADDITION to the target list, as generation-5 targets (experiments and the differential test of the translator; they have no tie)")
 	flag.Parse()
 	for _, t := range strings.Split(*extra, ",") {
 		if t = strings.TrimSpace(t); t != "" {
-			gen4Targets = append(gen4Targets, t)
+			gen5Targets = append(gen5Targets, t)
 			targetList = append(targetList, t)
 		}
 	}
 	if *outdir == "" && !*dump {
-		fmt.Fprintln(os.Stderr, "usage: ssa2lean4 -repo /repo -outdir DIR [-only pkg.Func,...]")
+		fmt.Fprintln(os.Stderr, "usage: ssa2lean5 -repo /repo -outdir DIR [-only pkg.Func,...]")
 		os.Exit(1)
 	}
 	absRepo, err := filepath.Abs(*repo)
@@ -147,7 +162,7 @@ func main() {
 		fatalf("%s is not a Go module root (no go.mod)", absRepo)
 	}
 
-	selected := gen4Targets
+	selected := gen5Targets
 	if *only != "" {
 		known := map[string]bool{}
 		for _, t := range targetList {
@@ -167,7 +182,7 @@ func main() {
 	}
 
 	prog, pkgs := load(absRepo, *tags, targetList)
-	tr := newTranslator(prog, pkgs, targetList, legacyTargets, newTargets, gen3Targets)
+	tr := newTranslator(prog, pkgs, targetList, legacyTargets, newTargets, gen3Targets, gen4Targets)
 	if *dump {
 		for _, name := range selected {
 			if f := tr.byName[name]; f != nil {
@@ -209,7 +224,7 @@ func main() {
 		}
 	}
 	if failed > 0 {
-		fmt.Fprintf(os.Stderr, "ssa2lean4: %d of %d target(s) could not be translated\n", failed, len(selected))
+		fmt.Fprintf(os.Stderr, "ssa2lean5: %d of %d target(s) could not be translated\n", failed, len(selected))
 		os.Exit(2)
 	}
 }
@@ -224,8 +239,10 @@ func genNames(gen int) (tool, ns, tie string) {
 		return "tools/ssa2lean2", "Low.Gen.Ssa2", "LowProofs/Tie2"
 	case 3:
 		return "tools/ssa2lean3", "Low.Gen.Ssa3", "LowProofs/Tie3"
+	case 4:
+		return "tools/ssa2lean4", "Low.Gen.Ssa4", "LowProofs/Tie4"
 	}
-	return "tools/ssa2lean4", "Low.Gen.Ssa4", "LowProofs/Tie4"
+	return "tools/ssa2lean5", "Low.Gen.Ssa5", "LowProofs/Tie5"
 }
 
 // leanNameOf maps "bitmap.Get" to "bitmap_Get".
